@@ -5,6 +5,7 @@ import (
 	"fmt"
 	"math/big"
 	"sort"
+	"strings"
 
 	"github.com/cosmos/cosmos-sdk/codec"
 	codectypes "github.com/cosmos/cosmos-sdk/codec/types"
@@ -608,7 +609,11 @@ func (b *Bridge) solvency(in *hub.Instance, g *bridgeGhost, op engine.Op, pre, p
 		denoms[t.Denom] = true
 	}
 	for d := range denoms {
-		liab := new(big.Rat).SetInt(post.Supply[d].BigInt())
+		// circulating supply: vouchers parked on the module account or on the keyless temporary
+		// address cannot be spent by anyone (they leave only through createSendToExternal, which burns
+		// exactly what it records), so they are not in circulation
+		circ := post.Supply[d].Sub(postBal["temp"].AmountOf(d)).Sub(postBal["module"].AmountOf(d))
+		liab := new(big.Rat).SetInt(circ.BigInt())
 		cust := new(big.Rat)
 		for _, t := range b.Cfg.Tokens {
 			if t.Denom != d {
@@ -618,6 +623,9 @@ func (b *Bridge) solvency(in *hub.Instance, g *bridgeGhost, op engine.Op, pre, p
 				cust.Add(cust, toHubRat(c, t.Dec))
 			}
 			for _, e := range post.Pool[t.Chain] {
+				if isCold(t.Chain, e.ExternalRecipient) {
+					continue // a move between two custody locations is not a liability
+				}
 				if e.Token.ExternalTokenId == t.ExtID {
 					liab.Add(liab, toHubRat(e.Token.Amount.Add(e.Fee.Amount).Add(e.ValCommission.Amount).BigInt(), t.Dec))
 				}
@@ -633,6 +641,9 @@ func (b *Bridge) solvency(in *hub.Instance, g *bridgeGhost, op engine.Op, pre, p
 					}
 				}
 				for _, e := range bt.Transactions {
+					if isCold(t.Chain, e.ExternalRecipient) {
+						continue
+					}
 					liab.Add(liab, toHubRat(e.Fee.Amount.Add(e.ValCommission.Amount).BigInt(), t.Dec))
 					if !paid {
 						liab.Add(liab, toHubRat(e.Token.Amount.BigInt(), t.Dec))
@@ -708,6 +719,12 @@ func (b *Bridge) solvency(in *hub.Instance, g *bridgeGhost, op engine.Op, pre, p
 			}
 		}
 	}
+}
+
+// isCold: governance cold storage addresses (keeper.GetColdStorageAddr) are custody locations.
+func isCold(chain, addr string) bool {
+	cold := map[string]string{"minter": "0x7072558b2b91e62dbed78e9a3453e5c9e01fec5e", "ethereum": "0x58BD8047F441B9D511aEE9c581aEb1caB4FE0b6d", "bsc": "0xbCc2Fa395c6198096855c932f4087cF1377d28EE"}
+	return strings.EqualFold(cold[chain], addr)
 }
 
 func pendingKinds(p []pendingEvent) string {
